@@ -147,7 +147,7 @@ func c15Exchange(r *Run) {
 	T := r.T
 	nReq := 1 + T.Draw("nreq", 8)
 	pipeline := 1 + T.Draw("pipeline", 4)
-	big := T.Bool("bigframes", 0.25)
+	big := T.Bool("bigframes", 0.25) && e.opts.Capacity >= 4096 // tiny link capacities cost several steps per byte
 	compressible := T.Bool("compressible", 0.5)
 	// burst: every request is handed to Send before any response is awaited, so several (possibly
 	// large) envelopes sit in the outgoing queue at the same moment
@@ -358,7 +358,7 @@ func c15RawClient(r *Run) {
 	var plan []sent
 	for i := 0; i < n; i++ {
 		size := T.DrawGeo("qsize", 400)
-		if T.Bool("qbig", 0.2) {
+		if T.Bool("qbig", 0.2) && e.opts.Capacity >= 4096 {
 			size = 1000 + T.Draw("qbigsize", 400000)
 		}
 		tag := fmt.Sprintf("rq%d", i)
@@ -498,7 +498,7 @@ func c15RawServer(r *Run) {
 	cells := make([][]byte, n)
 	for i := range cells {
 		size := T.DrawGeo("csize", 400)
-		if T.Bool("cbig", 0.2) {
+		if T.Bool("cbig", 0.2) && e.opts.Capacity >= 4096 {
 			size = 1000 + T.Draw("cbigsize", 400000)
 		}
 		cells[i] = c15Cell(fmt.Sprintf("rs%d", i), size, T.Bool("ccomp", 0.5), uint64(i+7))
